@@ -209,5 +209,5 @@ package extendeddaemonset
 //@   ensures [C12,C13] creates-only-for-the-reconciled-object: forall k int :: lognew(k) && logverb(k) == "Create" ==> cast(logsent(k), "*v1.ExtendedDaemonSetReplicaSet").ObjectMeta.Namespace == I.ObjectMeta.Namespace
 //@             && cast(logsent(k), "*v1.ExtendedDaemonSetReplicaSet").ObjectMeta.Labels["extendeddaemonset.datadoghq.com/name"] == I.ObjectMeta.Name
 //@   ensures [C07,C12,C13] deletes-only-listed-replica-sets: forall k int :: lognew(k) && logverb(k) == "Delete" ==> n0 + 1 < k && logverb(n0 + 1) == "List" && root(logobj(k)) == root(L.Items)
-//@   loop 1 invariant upToDateRS == nil ==> forall i int :: 0 <= i && i < iter() ==> !comparison.IsReplicaSetUpToDate(&replicaSetList.Items[i], instance)
+//@   loop 1 invariant [C13] upToDateRS == nil ==> forall i int :: 0 <= i && i < iter() ==> !comparison.IsReplicaSetUpToDate(&replicaSetList.Items[i], instance)
 //@   loop 1 invariant activeRS == nil || root(activeRS) == root(replicaSetList.Items)
